@@ -19,7 +19,10 @@ fn gen_model(r: &mut Rng, exhaustive: Option<usize>) -> LinearModel {
     let nv = 1 + r.below(3);
     let names = ["x", "y", "z"];
     for i in 0..nv {
-        let t = match r.below(7) {
+        let t = match r.below(10) {
+            7 => { let lo = r.range(1, 3) as f64 * 0.5; VariableType::NonNegativeReal(lo, lo + r.range(0, 4) as f64) }   // both bounds bind
+            8 => VariableType::Real(r.range(-4, 3) as f64, f64::INFINITY),
+            9 => { let lo = r.range(-3, 3) as f64; VariableType::Real(lo, lo) }                                           // fixed variable
             0 | 1 => VariableType::NonNegativeReal(0.0, f64::INFINITY),
             2 => VariableType::Real(f64::NEG_INFINITY, f64::INFINITY),
             3 => VariableType::NonNegativeReal(0.0, r.range(1, 6) as f64),
